@@ -189,6 +189,8 @@ impl<T: Value> Incr<T> {
             node
         });
         node.created_in.add_node(node.clone());
+        #[cfg(cormacrelf_incremental_rs_verif)]
+        crate::verif_audit::register(&node);
 
         Incr { node }
     }
